@@ -443,6 +443,9 @@ func judgeReplaced(r *Run, j *Judged, cl []*cls, by map[int]*OResp) {
 				if cx.fg304 != nil {
 					continue
 				}
+				if cx.H != nil && cx.H.Is304 && cx.H.SeqResp > u.Resp.SeqResp {
+					continue // the origin confirmed that representation again (304) after the full reply
+				}
 				sig := "foreground"
 				if !u.Fg {
 					sig = "background"
